@@ -3,7 +3,7 @@
 import json
 
 import stages
-from stages import calls, mc, product, tla_set
+from stages import calls, events_trace, mc, product, tla_set
 from vlib import log
 
 ALLK = ["std", "lf", "ll"]
@@ -125,12 +125,24 @@ def c16(ck, thorough):
     calls(ck, "c16_recipe", "recipe", scale=6 if thorough else 1, mks=ALLK, an="no", flav="find")
 
 
+def c13(ck, thorough):
+    """rejection depends only on configuration: the whole finite matrix, every kind"""
+    events_trace(ck, "c13_matrix", "matrix", [], "TraceApi", "TraceApi.cfg", "rejection-matrix",
+                 sig_fields=("api", "mk", "sk", "an", "empty", "kind"),
+                 distinct_drop=("shape", "hay"))
+    ck.extra["exhaustive"] = True
+    ck.extra["rule"] = ("every cell of 21 entry points x 3 match kinds x 3 start kinds x anchoring x "
+                        "empty-pattern, executed for 4 automaton kinds x 3 pattern lists x 3 haystacks; "
+                        "TLC checks each against ACApi!Outcome and that no cell is missing")
+
+
 CHECKS = {
     "C01": (c01, "model_checking"),
     "C02": (c02, "model_checking"),
     "C03": (c03, "model_checking"),
     "C04": (c04, "model_checking"),
     "C09": (c09, "model_checking"),
+    "C13": (c13, "model_checking"),
     "C14": (c14, "model_checking"),
     "C16": (c16, "model_checking"),
 }
